@@ -272,6 +272,24 @@ func TestMeaninglessRangesRejected(t *testing.T) {
 	})
 }
 
+// regression tier: the inputs of repaired defects (known_findings.json, status fixed)
+func TestFixedRegressions(t *testing.T) {
+	rec.Begin(t)
+	if rec.Shard() != 0 {
+		t.Skip("seed independent: shard 0 only")
+	}
+	for _, s := range []string{"a)", "a|", "a**", "a{,2}", `a\`, "a]", "(a))", "[a]]", "a{1}{2}", "", "a{2,1}x)"} {
+		ok, err := checkText(s)
+		rec.Case("regression:"+s, true, "regression")
+		if err != nil {
+			rec.Fail(t, "text", input{Text: s, Mode: "any"}, "%v", err)
+		}
+		if ok {
+			rec.Fail(t, "text", input{Text: s, Mode: "any"}, "text %q is accepted as a pattern although it is not a sentence of the documented grammar", s)
+		}
+	}
+}
+
 func TestReplay(t *testing.T) {
 	if !rec.IsReplay() {
 		t.Skip("not in replay mode")
